@@ -462,7 +462,7 @@ class Engine:
                 return z3.BoolVal(False)
             if kind == "list":
                 return z3.Length(self.list_of(v)) > 0
-            if kind in ("set", "frozenset"):
+            if kind in ("set", "frozenset", "anyset"):
                 return self.setmap_of(v) != so.EMPTY_SET
             if kind == "dict":
                 return self.dict_of(v) != so.EMPTY_KW
@@ -517,7 +517,9 @@ class Engine:
 
     def as_str(self, v, node=None):
         if isinstance(v, SV):
-            k, _ = parse_tag(v.ty)
+            k, a_ = parse_tag(v.ty)
+            if k == "opt":
+                k = parse_tag(a_)[0]
             if k == "bytes":
                 return Val.bs(v.term)
             return Val.s(v.term)
@@ -531,6 +533,8 @@ class Engine:
             return so.seq_of([self.to_term(x, node) for x in v.items])
         if isinstance(v, SV):
             kind, arg = parse_tag(v.ty)
+            if kind == "opt":
+                kind, arg = parse_tag(arg)
             if kind == "list":
                 return self.list_of(v)
             if kind == "tuple":
@@ -544,7 +548,7 @@ class Engine:
             return v.elem
         if isinstance(v, SV):
             kind, arg = parse_tag(v.ty)
-            if kind in ("list", "tuple", "seq", "iter", "set", "frozenset"):
+            if kind in ("list", "tuple", "seq", "iter", "set", "frozenset", "anyset"):
                 return arg
         return None
 
@@ -553,7 +557,7 @@ class Engine:
             return v.m
         if isinstance(v, SV):
             kind, arg = parse_tag(v.ty)
-            if kind in ("set", "frozenset"):
+            if kind in ("set", "frozenset", "anyset"):
                 return self.setmap_of(v)
             if kind == "opt":
                 return self.setmap_of(v)
